@@ -165,6 +165,12 @@ func adversarial() []advCase {
 	for _, b := range t2ColdPrograms() {
 		add("cff.Read", "t2-cold-ops", cffWithGlyph(b))
 	}
+	// composite glyphs (the Go fonts used as seeds have none) whose last
+	// component record / instruction block is cut short by 1..8 bytes through
+	// the loca table, for every argument and transform size
+	for _, c := range compositeTruncations() {
+		add("glyf.Decode", c.label, c.data)
+	}
 	add("gtab.Read/GSUB", "gsub2_1-aliased-sequences-2000", gsub2Aliased(2000))
 	add("gtab.Read/GSUB", "gsub2_1-aliased-sequences-16000", gsub2Aliased(16000))
 	return out
@@ -347,4 +353,51 @@ func cffWithGlyph(prog []byte) []byte {
 	b = append(b, prog...)
 	b = append(b, 0x8b, 20)
 	return b
+}
+
+
+// compositeTruncations: glyf/loca pairs (long loca format) holding one simple
+// glyph and one composite glyph built from the TrueType description of the
+// component record (flags, glyphIndex, arguments of 2 or 4 bytes, transform of
+// 0, 2, 4 or 8 bytes, optional instructions), with the composite glyph's loca
+// end moved back by 0..8 bytes.
+func compositeTruncations() []advCase {
+	var out []advCase
+	simple := []byte{0, 1, 0, 0, 0, 0, 0, 10, 0, 10, 0, 0, 0, 0, 0x31} // one contour, one point at the origin (x and y "same")
+	simple = append(simple, 0)                                         // pad to even
+	variants := []struct {
+		name  string
+		flags int
+		extra int // bytes behind flags+glyphIndex
+	}{
+		{"bytes", 0x0002, 2}, {"words", 0x0003, 4}, {"scale", 0x000B, 6}, {"xy", 0x0043, 8},
+		{"2x2", 0x0083, 12}, {"bytes-2x2", 0x0082, 10}, {"instr", 0x0103, 4},
+	}
+	for _, v := range variants {
+		for nComp := 1; nComp <= 2; nComp++ {
+			comp := []byte{0xFF, 0xFF, 0, 0, 0, 0, 0, 10, 0, 10}
+			for k := 0; k < nComp; k++ {
+				fl := v.flags
+				if k+1 < nComp {
+					fl |= 0x0020 // MORE_COMPONENTS
+				}
+				comp = append(comp, byte(fl>>8), byte(fl), 0, 0)
+				for i := 0; i < v.extra; i++ {
+					comp = append(comp, byte(i+1))
+				}
+			}
+			if v.flags&0x0100 != 0 {
+				comp = append(comp, 0, 3, 1, 2, 3)
+			}
+			for cut := 0; cut <= 8 && cut < len(comp)-10; cut++ {
+				gl := append(append([]byte(nil), simple...), comp...)
+				end := len(gl) - cut
+				be32 := func(v int) []byte { return []byte{byte(v >> 24), byte(v >> 16), byte(v >> 8), byte(v)} }
+				lo := append(append(be32(0), be32(len(simple))...), be32(end)...)
+				out = append(out, advCase{"glyf.Decode", "composite-" + v.name + "-" + itoa(nComp) + "-cut-" + itoa(cut),
+					joinPair(gl, append([]byte{1}, lo...))})
+			}
+		}
+	}
+	return out
 }
